@@ -332,6 +332,11 @@ def merchant_history(draw, idx):
     for _ in range(n):
         pays.append([draw(payment)[0], draw(st.sampled_from(months)), draw(st.one_of(st.integers(1, 28), st.sampled_from([1, 2, 3, 29, 30, 31])))])
     if draw(st.integers(0, 5)) == 0:
+        # a flat-rate subscription: one identical payment per month (cv is 0 - whatever the order of the floating-point operations)
+        amt = draw(st.sampled_from([15.99, 4.99, 19.99, 9.99, 0.1]))
+        pays = [[amt, mo, draw(st.integers(1, 28))] for mo in sorted(set(draw(st.lists(st.integers(0, 17), min_size=2, max_size=12))))]
+        n = len(pays)
+    if draw(st.integers(0, 5)) == 0:
         # payments in the first days of January AND the last days of December of one year (2024): different weeks, ~51 weeks apart
         pays.append([draw(payment)[0], 4, draw(st.integers(1, 5))])
         pays.append([draw(payment)[0], 15, draw(st.sampled_from([29, 30, 31]))])
